@@ -19,6 +19,10 @@ void h_OPN2_WriteBuffered(void) { ym3438_t *c ENVCHIP; OPN2_WriteBuffered(c, non
 void h_OPN2_Generate(void) { ym3438_t *c ENVCHIP; Bit16s *b; OPN2_Generate(c, b); REACH(1, "the call returns (precondition satisfiable)"); if(0) { OPN2_Clock(c, 0); OPN2_Write(c, 0, 0); } }
 void h_OPN2_Reset(void) { ym3438_t *c; OPN2_Reset(c, nondet_u32(), nondet_u32()); REACH(1, "the call returns (precondition satisfiable)"); }
 void h_OPN2_SetMute(void) { ym3438_t *c; OPN2_SetMute(c, nondet_u32()); REACH(1, "the call returns (precondition satisfiable)"); }
+void h_OPN2_Read(void) { ym3438_t *c; (void)OPN2_Read(c, nondet_u32()); REACH(1, "the call returns (precondition satisfiable)"); }
+void h_OPN2_SetTestPin(void) { ym3438_t *c; OPN2_SetTestPin(c, nondet_u32()); REACH(1, "the call returns (precondition satisfiable)"); }
+void h_OPN2_ReadTestPin(void) { ym3438_t *c; (void)OPN2_ReadTestPin(c); REACH(1, "the call returns (precondition satisfiable)"); }
+void h_OPN2_ReadIRQPin(void) { ym3438_t *c; (void)OPN2_ReadIRQPin(c); REACH(1, "the call returns (precondition satisfiable)"); }
 #ifdef NUKED_CHIPTYPE_PER_CHIP
 void h_OPN2_SetChipType(void) { ym3438_t *c; Bit32u t = nondet_u32(); OPN2_SetChipType(c, t); REACH(1, "the call returns (precondition satisfiable)"); }
 #else
